@@ -100,6 +100,7 @@ def history(ctx, i, gen_factory, n, dbs, txn, sel_rate=0.06):
     rnd = ctx.rnd
     try:
         c = s.open()
+        c2 = s.open()
         j = 0
         while j < n:
             c = workloads.ensure_conn(s, c)
@@ -107,6 +108,21 @@ def history(ctx, i, gen_factory, n, dbs, txn, sel_rate=0.06):
             if dbs and r < sel_rate:
                 s.cmd(c, [b'SELECT', str(rnd.choice([0, 1, 2])).encode()])
             elif txn and r < sel_rate + 0.06:
+                # every way a transaction can end: executed, aborted by WATCH (another connection writes the watched key),
+                # discarded, refused because of a command unknown at queue time, EXEC without MULTI — what is logged afterwards
+                # (by anybody) must not depend on how the last transaction ended
+                mode = rnd.choice(['exec', 'exec', 'abort', 'abort', 'discard', 'qerr', 'nomulti', 'watched-exec'])
+                if mode == 'nomulti':
+                    s.cmd(c, [rnd.choice([b'EXEC', b'DISCARD'])])
+                    j += 1
+                    continue
+                if mode in ('abort', 'watched-exec'):
+                    s.cmd(c, [b'WATCH', b'watched', b'watched2'])
+                if mode == 'abort':
+                    c2 = workloads.ensure_conn(s, c2)
+                    s.cmd(c2, rnd.choice([[b'SET', b'watched', b'w%d' % j], [b'LPUSH', b'watched2', b'x'], [b'DEL', b'watched2']]))
+                    if rnd.random() < 0.3:
+                        s.cmd(c2, [b'SET', b'watched', b'again%d' % j])
                 s.cmd(c, [b'MULTI'])
                 for _ in range(rnd.randrange(1, 4)):
                     a = g.next()
@@ -114,7 +130,9 @@ def history(ctx, i, gen_factory, n, dbs, txn, sel_rate=0.06):
                         s.cmd(c, a)
                     if dbs and rnd.random() < sel_rate:
                         s.cmd(c, [b'SELECT', str(rnd.choice([0, 1, 2])).encode()])
-                s.cmd(c, [b'EXEC'])
+                if mode == 'qerr':
+                    s.cmd(c, [b'NOSUCHCOMMAND', b'x'])
+                s.cmd(c, [b'DISCARD'] if mode == 'discard' else [b'EXEC'])
             else:
                 a = g.next()
                 if isinstance(a, list):
